@@ -97,6 +97,7 @@ type fx struct {
 	retCount    int
 	warnings    []string
 	usedSpecs   map[string]bool
+	callOrd     map[*ssa.Call]int
 	ghosts      map[string]*Val
 	hide        map[string]bool
 }
